@@ -273,9 +273,24 @@ func runCheck(prop, tier string) int {
 	var knownHit, canaryLost []string
 	vac := map[string]int{}
 	sort.SliceStable(results, func(i, j int) bool { return results[i].Obl.Name() < results[j].Obl.Name() })
+	// cover obligations with the same name (one per call site) are vacuous only if none of them is reachable
+	coverOK := map[string]bool{}
+	for _, r := range results {
+		if r.Obl.Expect == "sat" && r.Status != "vacuous" {
+			coverOK[r.Obl.Name()] = true
+		}
+	}
+	coverSeen := map[string]bool{}
 	for _, r := range results {
 		name := r.Obl.Name()
 		if r.Obl.Expect == "sat" {
+			if coverOK[name] && r.Status == "vacuous" {
+				continue
+			}
+			if coverSeen[name] && r.Status == "vacuous" {
+				continue
+			}
+			coverSeen[name] = true
 			vac[r.Status]++
 			if r.Status == "vacuous" {
 				viols = append(viols, violation{Obligation: name, Status: "vacuous-contract", Clause: r.Obl.Clause, Detail: "the assumptions of this function are contradictory: every obligation of it would be discharged vacuously"})
